@@ -450,6 +450,8 @@ fn big_documents(r: &Report) {
         docs.push(format!("head();\n{block}{}", "m".repeat(k)));
         docs.push(format!("{block}{}🧹", "あ".repeat(k / 3 + 1)));
     }
+    // degenerate inputs: nothing at all, a line break only, one character without line break
+    docs.extend(["", "\n", "x", "\n\n", "🧹"].map(String::from));
     let modes = ["clean", "list-json", "list-all"];
     let radices = [docs.len(), modes.len(), 2, 3];
     let expected: u64 = radices.iter().map(|&x| x as u64).product();
@@ -574,9 +576,12 @@ pub fn marker_rows(r: &Report) {
         r.machinery_failure(format!("{} not built", bin()));
         return;
     }
-    let pool = crate::props::marker::NAME_POOL;
-    // option rows: none / flag = the name / file = the name / flag = another name / file = other
-    let rows = 5usize;
+    // names an option parser or a shell-like layer might split, expand or trim
+    let mut pool: Vec<&str> = crate::props::marker::NAME_POOL.to_vec();
+    pool.extend(["a,b", "a b", "a=b", "x;y", "a:b", "日本語", "*", "$HOME", "%s", "~", " a", "a "]);
+    // option rows: none / flag = the name / file = the name / flag = another name / file = other /
+    // flag = a longer string that contains the name as a comma-separated piece (two orders) / file = the same
+    let rows = 8usize;
     let radices = [pool.len(), rows, 2];
     let expected: u64 = radices.iter().map(|&x| x as u64).product();
     let counted = explore_product(
@@ -593,7 +598,10 @@ pub fn marker_rows(r: &Report) {
                 1 => (vec![name.to_string()], None),
                 2 => (vec![], Some(format!("{name}\n"))),
                 3 => (vec![other.to_string()], None),
-                _ => (vec![], Some(format!("{other}\n"))),
+                4 => (vec![], Some(format!("{other}\n"))),
+                5 => (vec![format!("{name},zz")], None),
+                6 => (vec![format!("zz,{name}")], None),
+                _ => (vec![], Some(format!("{name},zz\n"))),
             };
             let c = CliCase {
                 src: format!("k1();\n<!-- <removal-marker name=\"{name}\"> -->\nPROBE();\n<!-- </removal-marker> -->\nk2();\n"),
